@@ -8,7 +8,7 @@ def jobs(tier, ctx):
                         inputs='uids/euids of 3 objects, argument kind/value, master answer', assumptions=['master apply returns any of: nothing, no master, number, string']))
     for which, nm in ((0, 'clone_object'), (1, 'load_object')):
         out.append(dict(name='gate.' + nm, srcs=['@harness/C20/gate.c', 'src/simulate.c', 'lib/lpc/otable.c', 'src/stack.c', 'lib/lpc/svalue.c', 'src/stralloc.c', 'src/frame.c', 'lib/misc/hash.c'], stubs=BASE + ['@harness/C20/gate_stubs.c'], defs=['WHICH=%d' % which], unwind=6,
-                        cuts=['lookup_object_hash', 'get_empty_object', 'object_visible'], targets=[nm], timeout=300, mem_gb=8, nobody_ok=['*'], opt_witness=['end'],
+                        cuts=['lookup_object_hash', 'get_empty_object', 'object_visible'], targets=[nm], timeout=300, mem_gb=8, unwindset=['strncpy.0:4100', 'strncat.0:4100', 'strlen.0:12', 'strip_name.0:12', 'memset.0:5000'], nobody_ok=['*'], opt_witness=['end'],
                         desc=nm + ' called by an object with/without euid, master or not, any mudlib state: no blueprint lookup, file access or object allocation happens when the caller has euid 0 and is not the master',
                         inputs='caller euid set?, caller is master?, machine state, blueprint already loaded?', assumptions=['everything after the gate is replaced by stubs that assert the gate decision']))
     return out
